@@ -538,6 +538,8 @@ class MarkdownNormalizer(Renderer):
     def render_thematic_break(self, _element: block.ThematicBreak) -> str:
         result = f"{self._prefix}* * *\n"
         self._prefix = self._second_prefix
+        # Like other blocks, a rule must not suppress the separator before the next list item
+        self._suppress_item_break = False
         return result
 
     def render_heading(self, element: block.Heading) -> str:
